@@ -16,7 +16,7 @@ ASSUMPTIONS = ['the face-plane pentagon is taken from a5.core.tiling.get_face_ve
 
 
 def plan(tier, seed):
-    return [{'n': 320 if tier == 'quick' else 14500} for _ in range(16)]
+    return [{'n': 220 if tier == 'quick' else 14500} for _ in range(16)]
 
 
 def vec_of(s):
